@@ -37,4 +37,17 @@ RECURSIVE LenBefore(_, _)
 LenBefore(chunks, k) == IF k <= 1 THEN 0 ELSE Len(chunks[k - 1]) + LenBefore(chunks, k - 1)
 \* 1-based position in the flat text of the character _char_index points at
 AbsPos(cs) == (IF cs.ci = 0 THEN 0 ELSE LenBefore(cs.chunks, cs.ci)) + cs.idx + 1
+
+(* ---- every way of delivering a text ------------------------------------------ *)
+\* cut into non-empty parts ...
+RECURSIVE Compositions(_)
+Compositions(t) ==
+    IF t = <<>> THEN {<<>>}
+    ELSE UNION {{<<SubSeq(t, 1, j)>> \o rest : rest \in Compositions(SubSeq(t, j + 1, Len(t)))} : j \in 1..Len(t)}
+\* ... with E[k] empty chunks after the k-th part (E[0]: in front)
+Empties(n) == [j \in 1..n |-> <<>>]
+RECURSIVE Weave(_, _, _)
+Weave(parts, E, k) == Empties(E[k]) \o (IF k = Len(parts) THEN <<>> ELSE <<parts[k + 1]>> \o Weave(parts, E, k + 1))
+Chunkings(text, maxEmpty) ==
+    UNION {{Weave(parts, E, 0) : E \in [0..Len(parts) -> 0..maxEmpty]} : parts \in Compositions(text)}
 =============================================================================
